@@ -417,7 +417,20 @@ def check(case, stats):
                              f' board {ob}; replay {rseq[-6:]} hole {rh}'
                              f' board {rb}; actions {h2.actions[-8:]}'))
                 return out
-            if terminal:
+            # a Decimal whose text is a plain integer literal (Decimal('1'))
+            # is an int to any reader of the file, and an all-integer table
+            # splits odd pots by whole chips: the format cannot carry the
+            # difference, so results of such histories are not compared
+            ambiguous = any(
+                isinstance(x, Decimal) and str(x).lstrip('-').isdigit()
+                for f_ in ('antes', 'blinds_or_straddles', 'starting_stacks')
+                for x in (getattr(h, f_) or ())) or any(
+                isinstance(getattr(h, f_, None), Decimal)
+                and str(getattr(h, f_)).lstrip('-').isdigit()
+                for f_ in ('min_bet', 'small_bet', 'big_bet', 'bring_in'))
+            if ambiguous and terminal:
+                stats.count('not_judged:integral_decimal_reads_back_as_int')
+            if terminal and not ambiguous:
                 if list(rs_.stacks) != list(s.stacks) or \
                         list(rs_.payoffs) != list(s.payoffs) or rs_.status:
                     out.append(V(ID, 'replayed_result_differs', '',
